@@ -82,7 +82,7 @@ def plan(tier):
         bounds='count <= 48, capacity in {3 (inline), 6, 12, 24, 48}; the count is a skeleton input (a symbolic count+flag word defeats constant folding: > 200 s/query measured)',
         outside='counts/capacities above 48 (48 -> 96 is the same doubling path as 24 -> 48); awaiting coroutine that is itself in the list; pre-filled ready queue (C05)'))
     if quick:
-        sa = [(0, 0), (0, 2), (0, 3), (1, 5), (1, 6), (2, 12), (3, 13), (4, 25)]
+        sa = [(0, 0), (0, 2), (0, 3), (1, 0), (1, 5), (1, 6), (2, 0), (2, 12), (3, 13), (4, 25)]          # incl. heap representation with zero handles (popped empty)
         pairs = list(itertools.product(sa, few_states()))
         v2 = step2_vectors(pairs, (0,)) + step2_vectors([((0, 2), (0, 3)), ((0, 1), (1, 5)), ((1, 6), (2, 7)), ((2, 12), (0, 0)), ((3, 20), (3, 24))], (1,))
         sp2 = 'a << std::move(b) for a in %s x b in %s with a.count + b.count <= 48; a = std::move(b) for 5 pairs' % (sa, few_states())
